@@ -6,11 +6,17 @@
                  share one file (recorded finding C19-name-collision; theorems
                  C19_transparent_refuted / C19_str_names_collide_refuted describe the tree, the
                  positive theorems hold under the guard [names_distinct])
-      NameRepr   after fixes/C19-name-fn.diff: f"{k!r}.p"; theorem C19_transparent (no guard on the
-                 names, only "the keys are pairwise different") applies to the tree
-    tools/c19_switch.py rewrites this line and known_findings.d/C19.json consistently. *)
+      NameRepr   after fixes/C19-name-fn.diff (/repo 212c2b0): f"{k!r}.p"; theorem C19_transparent (no guard
+                 on the names, only "the keys are pairwise different") applies to the tree.  SNAPSHOT of
+                 the second switch: a key whose repr contains "/" cannot be cached (recorded finding
+                 C19-slash-in-key, theorem C19_slash_names_refuted)
+      NameReprEsc  after fixes/C19-slash-in-key.diff: repr with "%" -> "%25", "/" -> "%2F"; every name is a
+                 single path component (C19_escaped_names_are_components), still injective
+                 (C19_escaped_names_injective), C19_transparent applies
+    tools/c19_switch.py (`slash snapshot|repaired <commit>`) rewrites this line, known_findings.d/C19.json
+    and the switch sentence of the manifest note consistently. *)
 From CacheFS Require Import CacheKeys CacheFS.
 
-Definition C19_expected_name : name_kind := NameRepr.
+Definition C19_expected_name : name_kind := NameReprEsc.
 
 Definition expected_facts : cache_facts := mkCacheFacts SaveTempReplace true true C19_expected_name.
